@@ -5,13 +5,13 @@ import json
 from .. import common, gen, ref
 
 PROP = "C01"
-RULE = ("bounded-exhaustive strings over a 38-character class alphabet (every class and transition the tokenizer distinguishes, incl. 2/3/4-byte "
+RULE = ("bounded-exhaustive strings over a 40-character class alphabet (every class and transition the tokenizer distinguishes, incl. 2/3/4-byte "
         "characters) - each parsed, rendered with expr()/describe() and executed on an empty and a populated context; random token soup and "
         "character-level corruptions of valid programs up to ~400 bytes; a depth ladder of 13 recursive shape families (one process per rung, 8 MiB "
         "stack); flat inputs up to 4 MiB. distinct class = (workload, input length / family, depth rung, outcome class)")
 ALPHABET = ["+", "-", "=", "!", "<", ">", "&", "|", "*", "/", "%", "^", "?", ":", "(", ")", "[", "]", "{", "}", "0", "1", ".", "e", "'", "\"", ";", ",", " ", "\n", "\r", "\t",
             "i", "n", "t", "A", "_", "é", "€", "😀", " ", "#"]
-ALPHABET = ALPHABET[:32] + ["i", "n", "t", "_", "é", "😀"]  # 38 symbols
+ALPHABET = ALPHABET[:32] + ["i", "n", "t", "_", "é", "😀", "\u00a0", "\x0c"]  # 40 symbols
 
 FAMILIES = {
     "parens": lambda n: "(" * n + "1" + ")" * n,
